@@ -4,6 +4,19 @@
 
 mod doubles;
 mod eng_int;
+mod eng_map;
+mod eng_seq;
+mod eng_gen;
+mod eng_str;
+mod eng_lex;
+mod eng_ord;
+mod eng_ty;
+mod eng_ovl;
+mod eng_alloc;
+mod eng_perm;
+mod eng_fl;
+mod eng_conv;
+mod eng_core;
 mod run;
 
 use serde_json::{json, Value};
@@ -19,6 +32,19 @@ fn dispatch(req: &Value) -> Value {
     match req["op"].as_str().unwrap_or("") {
         "run" => run::op_run(req),
         "int" => eng_int::op_int(req),
+        "map" => eng_map::op(req),
+        "seq" => eng_seq::op(req),
+        "gen" => eng_gen::op(req),
+        "str" => eng_str::op(req),
+        "lex" => eng_lex::op(req),
+        "ord" => eng_ord::op(req),
+        "ty" => eng_ty::op(req),
+        "ovl" => eng_ovl::op(req),
+        "alloc" => eng_alloc::op(req),
+        "perm" => eng_perm::op(req),
+        "fl" => eng_fl::op(req),
+        "conv" => eng_conv::op(req),
+        "core" => eng_core::op(req),
         "ping" => json!({"pong": true}),
         _ => json!({"bad-op": true}),
     }
